@@ -3,7 +3,10 @@ From Hermes Require Export Model.BusLog.
 
 (* bc_truth: for each BSeek, in order, the ground truth read by plain SQL at that moment:
    oldest retained offset (0 if none) and next offset to be written (0 if unknown) *)
-Record bcase := BCase { bc_ops : list bop; bc_obs : list bout; bc_truth : list (Z * Z) }.
+(* bc_purges: for each BOpen, in order, read by plain SQL: the rows before the open as
+   (offset, age in hundredths of a day at the moment of the open) and the offsets after it *)
+Record bcase := BCase { bc_ops : list bop; bc_obs : list bout; bc_truth : list (Z * Z);
+                        bc_purges : list (list (Z * Z) * list Z) }.
 
 Definition seekres_eqb (a b : seekres) : bool :=
   match a, b with SeekOk, SeekOk | SeekIndexError, SeekIndexError | SeekInvalid, SeekInvalid => true | _, _ => false end.
@@ -76,8 +79,26 @@ Fixpoint o18_seek (ops : list bop) (obs : list bout) (truth : list (Z * Z)) : bo
   | _ :: r, _ :: ro => o18_seek r ro truth
   | _, _ => true
   end.
+(** retention, per event and on SQL ground truth alone: an open with retention R removes every
+    event older than R and keeps every younger one (one hundredth of a day of slack either side) *)
+Fixpoint o18_purge (ops : list bop) (pur : list (list (Z * Z) * list Z)) : bool :=
+  match ops with
+  | BOpen ret :: r =>
+      match pur with
+      | (before, after) :: rp =>
+          forallb (fun ia => let kept := existsb (Z.eqb (fst ia)) after in
+                             (if ret + 1 <? snd ia then negb kept else true)
+                             && (if snd ia <? ret - 1 then kept else true)) before
+          && forallb (fun i => existsb (fun ia => Z.eqb (fst ia) i) before) after
+          && o18_purge r rp
+      | [] => true
+      end
+  | _ :: r => o18_purge r pur
+  | [] => true
+  end.
 Definition c18_case (x : bcase) : bool :=
-  o18 (bc_ops x) (bc_obs x) 0 None None && o18_seek (bc_ops x) (bc_obs x) (bc_truth x).
+  o18 (bc_ops x) (bc_obs x) 0 None None && o18_seek (bc_ops x) (bc_obs x) (bc_truth x)
+  && o18_purge (bc_ops x) (bc_purges x).
 
 Definition b2z (b : bool) : Z := if b then 1 else 0.
 Definition check_bcases (f g : bcase -> bool) (l : list bcase) : list (Z * Z * Z) :=
